@@ -278,6 +278,12 @@ def coll_catalogue(E):
         ('dba', 'py', 1, lambda s: bc.dba(s, np.array(s[0], dtype=float).copy(), use_c=False)),
         ('dba_loop', 'py', 1, lambda s: bc.dba_loop(s, c=None, max_it=2, use_c=False)),
         ('dba_loop(use_c)', 'c', 1, lambda s: bc.dba_loop(s, c=None, max_it=2, use_c=True)),
+        ('dba_loop(thr=None)', 'py', 1, lambda s: bc.dba_loop(s, c=None, max_it=2, thr=None, use_c=False)),
+        ('dba_loop(use_c,thr=None)', 'c', 1, lambda s: bc.dba_loop(s, c=None, max_it=2, thr=None, use_c=True)),
+        ('dba_loop(use_c,c=s[1],thr=None)', 'c', 1, lambda s: bc.dba_loop(s, c=s[1], max_it=2, thr=None, use_c=True)),
+        ('dba_loop(use_c,keep_averages)', 'c', 1, lambda s: bc.dba_loop(s, c=None, max_it=2, thr=None, keep_averages=True, use_c=True)),
+        ('dba_loop(c=s[1],window,penalty)', 'py', 1, lambda s: bc.dba_loop(s, c=s[1], max_it=2, thr=None, use_c=False, window=2, penalty=0.5)),
+        ('dba_loop(use_c,mask)', 'c', 1, lambda s: bc.dba_loop(s, c=None, max_it=2, mask=np.array([True, False] + [True] * (len(s) - 2)), use_c=True)),
         ('Hierarchical.fit', 'py', 1, lambda s: hfit(s, False)),
         ('Hierarchical.fit(use_c)', 'c', 1, lambda s: hfit(s, True)),
         ('subsequence_search', 'py', 1, lambda s: search(s, False)),
@@ -285,6 +291,8 @@ def coll_catalogue(E):
         ('dtw_ndim.distance_matrix(use_c)', 'c', 2, lambda s: dtw_ndim.distance_matrix(s, compact=True, use_c=True)),
         ('dba_loop(ndim)', 'py', 2, lambda s: bc.dba_loop(s, c=None, max_it=2, use_c=False)),
         ('dba_loop(ndim,use_c)', 'c', 2, lambda s: bc.dba_loop(s, c=None, max_it=2, use_c=True)),
+        ('dba_loop(ndim,use_c,thr=None)', 'c', 2, lambda s: bc.dba_loop(s, c=None, max_it=2, thr=None, use_c=True)),
+        ('dba_loop(ndim,use_c,c=s[1],thr=None)', 'c', 2, lambda s: bc.dba_loop(s, c=s[1], max_it=2, thr=None, use_c=True)),
     ]
     return cat
 
@@ -707,7 +715,7 @@ def run(ctx):
             acc.violation('container', parts[0], 'py', {'api': parts[0], 'numpy': False, 'what': 'numpy absent'}, {'key': key}, exp, val)
     return core.finish(
         PROP, ctx.tier, ctx.seed, acc,
-        rule='every API of a catalogue (25 pair-level, 14 collection-level routines, both engines) x every combination of container representations for its series arguments '
+        rule='every API of a catalogue (25 pair-level, 22 collection-level routines incl. the option variants of the averaging loop (thr=None, keep_averages, explicit initial average taken from the collection, mask), both engines) x every combination of container representations for its series arguments '
              '(list, tuple, array.array, ndarray contiguous / strided / reversed / row of a matrix / Fortran-ordered slices / transposed views / exactly F-contiguous / read-only; list/tuple of arrays, strided rows, SeriesContainer, 2-D and 3-D arrays in C, strided and Fortran order); '
              'each array lives in a larger poisoned buffer (two poison values); every call is judged for untouched inputs and guard zones, independence of the poison, repeatability and equality with the canonical representation; '
              'histories: every sequence up to depth 3 of 13 routines sharing the same series objects; every sequence up to depth 3 of the operations of one shared model object (SubsequenceSearch with/without max_dist, SubsequenceAlignment, LocalConcurrences, Hierarchical incl. HierarchicalTree wrappers and a changed max_dist, KMeans with a fixed random seed) and of consumers of one shared settings dictionary, in both engines, each step compared with the same operation on a fresh object; NumPy absent: the NumPy-free routines in a NumPy-less interpreter; non-trivial = non-canonical container or history length >= 2',
